@@ -722,7 +722,7 @@ class Http:
         H["_flush_collector"] = lambda S, writer, out, config=None, shm=None: (self.may_raise("flush", pa.ArrowInvalid), S.int("flushed_external"))[1]
         H["predict_externalize_bytes_for_collector"] = lambda S, out, cfg: S.int("predicted")
         H["predict_externalize_bytes_for_batch"] = lambda S, batch, cfg: S.int("predicted")
-        H["_mint_cursor_token"] = lambda S, state, info, call_id, key, auth: (self.may_raise("mint_cursor"), (b"cursor-token", b"state-bytes"))[1]
+        H["_mint_cursor_token"] = lambda S, state, info, call_id, key, auth, *a, **kw: (self.may_raise("mint_cursor"), (b"cursor-token", b"state-bytes"))[1]
         H["_coerce_input_batch"] = lambda S, batch, schema: (self.may_raise("coerce", TypeError), batch)[1]
         H["resolve_external_location"] = lambda S, batch, cm, config, ipc_validation=None: (self.may_raise("resolve_external", RuntimeError), (batch, cm))[1]
         H["_enforce_response_budgets"] = lambda S, **kw: self.may_raise("response_budget", RuntimeError)
@@ -1095,14 +1095,14 @@ def http_stream_init(S):
 
     H["UserMethod.__call__"] = method
 
-    def mint_call(S, call_state, output_schema, input_schema, key, auth, stream_id):
+    def mint_call(S, call_state, output_schema, input_schema, key, auth, stream_id, **kw):
         W.may_raise("mint_call")
         S.event("call_token_sealed", stream_id)
         return (b"call-token", b"call-id", b"call-state")
 
     H["_mint_call_token"] = mint_call
-    H[st._ResolvedCall] = lambda S, call_state, output_schema, input_schema, stream_id: SObj(None, kind="Resolved", call_state=call_state, output_schema=output_schema, input_schema=input_schema, stream_id=stream_id)
-    H["Cache.put"] = lambda S, cache, call_id, auth, resolved, now: S.event("cache_put", resolved.fields["stream_id"])
+    H[st._ResolvedCall] = lambda S, call_state, output_schema, input_schema, stream_id, *a, **kw: SObj(None, kind="Resolved", call_state=call_state, output_schema=output_schema, input_schema=input_schema, stream_id=stream_id, **kw)
+    H["Cache.put"] = lambda S, cache, call_id, auth, resolved, *a, **kw: S.event("cache_put", resolved.fields["stream_id"])
     out = S.outcome(st._run_stream_init_sync, app, "m", info, SObj(None, kind="RequestStream"))
     S.inputs.update({k: v for k, v in cfg.items() if v is not None})
     judge_http_stream_turn(S, W, out, "http_init", STREAM_ID, cancel=False)
@@ -1197,7 +1197,7 @@ def http_stream_exchange(S):
         return h
 
     H["_compute_aad"] = lambda S, auth: b"aad"
-    H["_open_cursor_token"] = lambda S, token, key, aad, ttl: (http_reject("cursor_token")(S), (b"state-bytes", b"call-id"))[1]
+    H["_open_cursor_token"] = lambda S, token, key, aad, ttl, *a, **kw: (http_reject("cursor_token")(S), (b"state-bytes", b"call-id"))[1]
 
     def resolved_call():
         def input_is_empty(S, schema):
@@ -1208,9 +1208,9 @@ def http_stream_exchange(S):
         H["Schema.empty@get"] = input_is_empty
         return SObj(None, kind="Resolved", call_state=None, output_schema=SObj(None, kind="Schema", tag="out", empty=False), input_schema=SObj(None, kind="Schema", tag="in"), stream_id=token_sid)
 
-    H["Cache.get"] = lambda S, cache, call_id, auth, now: resolved_call() if S.choose(2) == 0 else None
-    H["Cache.put"] = lambda S, cache, call_id, auth, resolved, now: None
-    H["_resolve_call_from_token"] = lambda S, app_, call_token, call_id, state_info, auth: (http_reject("call_token")(S), resolved_call())[1]
+    H["Cache.get"] = lambda S, cache, call_id, auth, *a, **kw: resolved_call() if S.choose(2) == 0 else None
+    H["Cache.put"] = lambda S, cache, call_id, auth, resolved, *a, **kw: None
+    H["_resolve_call_from_token"] = lambda S, app_, call_token, call_id, state_info, auth, *a, **kw: (http_reject("call_token")(S), resolved_call())[1]
     H["_resolve_state_cls"] = lambda S, state_bytes, state_info: (SObj(None, kind="StateCls"), b"raw")
     H["_deserialize_state_bytes"] = lambda S, cls, raw, validation=None: (W.reject("state_bytes", ValueError), SObj(None, kind="State"))[1]
     H["State.bind_call_state"] = lambda S, st_, cs: None
@@ -1328,7 +1328,7 @@ def egress(S):
     out = S.outcome(mw._AccessLogEgressMiddleware.process_response, me, req, SObj(None, kind="Resp"), None, True)
     S.oblige("O1.egress.returns", out.returned, kind="raises")
     S.oblige("O1.egress.each_queued_record_is_logged_exactly_once_in_order", len(logged) == n and all(logged[i][1] is queued[i][1] and logged[i][0] == queued[i][0] for i in range(min(n, len(logged)))), kind="trace")
-    for i, (_, extra) in enumerate(logged):
+    for i, (_, extra) in enumerate(logged[:n]):
         kept = all(k in extra and (extra[k] is before[i][k] or extra[k] == before[i][k]) for k in before[i])
         added = set(extra) - set(before[i])
         S.oblige("O2.egress.record_fields_unchanged_only_response_bytes_added", kept and added <= {"response_bytes"} and (("response_bytes" in extra) == (size is not None)), kind="post")
